@@ -280,8 +280,11 @@ pub fn string_to_number(s: &str) -> SN {
                     None => return SN::Unj("radix literal beyond 128 bits"),
                 };
             }
-            if acc >= (1u128 << 53) {
-                return SN::Unj("radix literal beyond 2^53 (rounding is implementation-approximated)");
+            // exact whenever the value has at most 53 significant bits (then every correct
+            // algorithm gives the same double); otherwise the rounding direction of long
+            // literals is left unjudged
+            if acc >= (1u128 << 53) && ((acc as f64) as u128 != acc) {
+                return SN::Unj("radix literal beyond 2^53 that is not exactly representable");
             }
             return SN::Num(acc as f64);
         }
@@ -459,8 +462,11 @@ pub fn deep_eq(a: &Value, b: &Value) -> Result<bool, &'static str> {
         (Number(x), Number(y)) => {
             let e = num_exact_eq(x, y);
             let f = num_f64(x) == num_f64(y);
-            if e != f {
-                return Err("numbers equal as doubles but not exactly");
+            // two JSON integers are "numerically equal" only if they are the same integer;
+            // an integer against a double beyond 2^53 is left unjudged
+            let both_int = !x.is_f64() && !y.is_f64();
+            if e != f && !both_int {
+                return Err("an integer and a double beyond 2^53 that are equal as doubles but not exactly");
             }
             e
         }
